@@ -855,7 +855,19 @@ class TorConfig:
             # parse_keywords if it was unspecified
             real_name = self._find_real_name(k)
             if real_name in self.parsers:
-                v = self.parsers[real_name].parse(v)
+                if real_name in self.list_parsers:
+                    # list-valued options stay tracked lists, whether
+                    # Tor reports no value, one value or many
+                    if v == DEFAULT_VALUE:
+                        v = self.__dict__['_defaults'].get(real_name, [])
+                    if not isinstance(v, list):
+                        v = self.parsers[real_name].parse(v)
+                    if not isinstance(v, list):
+                        v = [v]
+                    v = _ListWrapper(
+                        v, functools.partial(self.mark_unsaved, real_name))
+                else:
+                    v = self.parsers[real_name].parse(v)
             self.config[real_name] = v
 
     def bootstrap(self, arg=None):
